@@ -317,7 +317,7 @@ func newCtlEnv(c *ctx, netn int, peerIDs []int) *ctlEnv {
 		conn, err := net.ListenUDP("udp4", a)
 		if err != nil {
 			fmt.Fprintln(os.Stderr, "harness: cannot bind", a, err)
-			os.Exit(3)
+			die(3)
 		}
 		e.peers[k] = conn
 	}
@@ -344,7 +344,7 @@ func (e *ctlEnv) startServer(maxRetrans uint8, txSeq uint32, seed uint64, faultP
 		}
 	}
 	fmt.Fprintln(os.Stderr, "harness: server did not come up")
-	os.Exit(3)
+	die(3)
 }
 
 func (e *ctlEnv) stopServer() {
@@ -355,7 +355,7 @@ func (e *ctlEnv) stopServer() {
 	case <-done:
 	case <-time.After(5 * time.Second):
 		fmt.Fprintln(os.Stderr, "harness: server did not stop")
-		os.Exit(3)
+		die(3)
 	}
 	e.drain()
 }
@@ -624,7 +624,7 @@ func (e *ctlEnv) buildDatagram(ev *event) []byte {
 	err := m.MarshalTo(b)
 	if err != nil {
 		fmt.Fprintln(os.Stderr, "harness: marshal:", err)
-		os.Exit(3)
+		die(3)
 	}
 	return b
 }
